@@ -73,8 +73,12 @@ func TestVerifN2NGiveUp(t *testing.T) {
 			t.Fatal(err)
 		}
 		// ---
-		for i := 0; i < 2500 && !src.Subscribed(); i++ {
+		for i := 0; i < 10000 && !src.Subscribed(); i++ {
 			time.Sleep(2 * time.Millisecond)
+		}
+		if !src.Subscribed() {
+			fmt.Printf("GIVEUP-ERROR the consumer did not subscribe (attempts=%d)\n", attempts)
+			continue
 		}
 		dst.Script("err", "err", "err")
 		body := []byte(fmt.Sprintf("payload-%d", attempts))
@@ -112,7 +116,7 @@ func TestVerifN2NGiveUp(t *testing.T) {
 		consumer.Stop()
 		select {
 		case <-consumer.StopChan:
-		case <-time.After(5 * time.Second):
+		case <-time.After(15 * time.Second):
 		}
 		for _, p := range producers {
 			p.Stop()
@@ -356,7 +360,7 @@ func TestVerifN2NHist(t *testing.T) {
 					addr = 0
 				case held = <-gs[1].got:
 					addr = 1
-				case <-time.After(5 * time.Second):
+				case <-time.After(15 * time.Second):
 					fail(fmt.Sprintf("history %d: message %d queued but no destination received a PUB", h, id))
 					bad = true
 					continue
@@ -411,7 +415,7 @@ func TestVerifN2NHist(t *testing.T) {
 				resp := ""
 				select {
 				case resp = <-o.rec.ch:
-				case <-time.After(5 * time.Second):
+				case <-time.After(15 * time.Second):
 					fail(fmt.Sprintf("history %d: transaction of message %d answered %s by the destination but the tool never responded", h, o.id, verb))
 					bad = true
 				}
